@@ -125,6 +125,9 @@ def main():
                 sh("git -C /repo checkout -- .")
     # record
     dst = f"/verif/seeded/{prop}-{variant}"
+    if os.path.exists(dst) and os.environ.get("SEEDED_ROUND2"):
+        # second round: A -> C, B -> D
+        dst = f"/verif/seeded/{prop}-{chr(ord(variant) + 2)}"
     if res["confirmed"]:
         shutil.rmtree(dst, ignore_errors=True)
         os.makedirs(dst)
